@@ -197,7 +197,6 @@ TRANSPARENT_CALLS = {
     "<T as core::convert::From<T>>::from",
     "<darling_core::util::spanned_value::SpannedValue<T> as core::ops::deref::Deref>::deref",
     "<darling_core::util::spanned_value::SpannedValue<T> as core::convert::AsRef<T>>::as_ref",
-    "<syn::punctuated::Punctuated<T, P> as core::ops::index::Index<usize>>::index",
 }
 
 
